@@ -1869,6 +1869,10 @@ def _read_next_required(ctx: ReaderContext, after: str) -> RawReaderForm:
         v = _read_next(ctx)
         if v is COMMENT or isinstance(v, Comment):
             continue
+        if _should_splice_reader_conditional(ctx, v):
+            raise ctx.syntax_error(
+                f"Splicing reader conditional may not appear directly after {after}"
+            )
         return v
 
 
